@@ -8,8 +8,10 @@ import (
 // isum(a, o, n) = a[o] + ... + a[o+n-1]: uninterpreted. Quantified unfolding axioms would loop in the
 // matcher, so the two unfoldings the code needs are emitted as ground facts exactly where the code
 // performs the corresponding operation on an []int:
-//   s[1:]            isum(a,o,n) = a[o] + isum(a,o+1,n-1)                     (n > 0)
-//   append(s, x)     isum(r,ro,n+1) = isum(r,ro,n) + r[ro+n]  and  isum(r,ro,n) = isum(a,o,n)
+//
+//	s[1:]            isum(a,o,n) = a[o] + isum(a,o+1,n-1)                     (n > 0)
+//	append(s, x)     isum(r,ro,n+1) = isum(r,ro,n) + r[ro+n]  and  isum(r,ro,n) = isum(a,o,n)
+//
 // Both are theorems of the recursive definition of the sum (induction on n; the second needs that the
 // copied range has equal elements). They are listed as assumed arithmetic lemma facts in the evidence.
 func (e *Exec) sumDecls() {
